@@ -288,16 +288,16 @@ func builtinEscape(input string) string {
 }
 
 func builtinUnescape(input string) string {
-	output := make([]rune, 0, len(input))
+	// B.2.2 works on code units: collect them and convert once at the end, so
+	// that %uD83D%uDE00 becomes one character.
+	output := make([]uint16, 0, len(input))
 	length := len(input)
 	for index := 0; index < length; {
 		if input[index] == '%' {
 			if index <= length-6 && input[index+1] == 'u' {
 				byte16, err := hex.DecodeString(input[index+2 : index+6])
 				if err == nil {
-					value := uint16(byte16[0])<<8 + uint16(byte16[1])
-					chr := utf16.Decode([]uint16{value})[0]
-					output = append(output, chr)
+					output = append(output, uint16(byte16[0])<<8+uint16(byte16[1]))
 					index += 6
 					continue
 				}
@@ -305,9 +305,7 @@ func builtinUnescape(input string) string {
 			if index <= length-3 {
 				byte8, err := hex.DecodeString(input[index+1 : index+3])
 				if err == nil {
-					value := uint16(byte8[0])
-					chr := utf16.Decode([]uint16{value})[0]
-					output = append(output, chr)
+					output = append(output, uint16(byte8[0]))
 					index += 3
 					continue
 				}
@@ -315,10 +313,10 @@ func builtinUnescape(input string) string {
 		}
 		// Anything else is copied as it is (B.2.2 step 18), a whole character at a time.
 		chr, width := utf8.DecodeRuneInString(input[index:])
-		output = append(output, chr)
+		output = append(output, utf16.Encode([]rune{chr})...)
 		index += width
 	}
-	return string(output)
+	return string(utf16.Decode(output))
 }
 
 func builtinGlobalEscape(call FunctionCall) Value {
